@@ -179,6 +179,14 @@ var cloneMandatory = map[string]bool{
 func (g *cloneGen) spec(fn, param, name string, named *types.Named) {
 	N := fmt.Sprintf("%s.(*ast.%s)", param, name)
 	R := fmt.Sprintf("result.(*ast.%s)", name)
+	g.p("  opt freshresult *ast.%s", name)
+	g.p("  opt freshskip IR Upvars Reflect")
+	var nodeNames []string
+	for n := range g.nodeTs {
+		nodeNames = append(nodeNames, astPath+"."+n)
+	}
+	sort.Strings(nodeNames)
+	g.p("  opt freshnodes  %s ", strings.Join(nodeNames, " "))
 	g.p("  ensures %s != nil && %s != %s", R, R, N)
 	st := named.Underlying().(*types.Struct)
 	for i := 0; i < st.NumFields(); i++ {
